@@ -162,10 +162,11 @@ const (
 	opReload
 	opClean
 	opClose
+	opOpenAdd // the handle is opened inside the process, i.e. possibly after others committed
 	nOps
 )
 
-var opNames = []string{"Add", "AddAuto", "CompactAll", "CompactFirstTwo", "Reload", "Clean", "Close"}
+var opNames = []string{"Add", "AddAuto", "CompactAll", "CompactFirstTwo", "Reload", "Clean", "Close", "OpenAdd"}
 
 type procState struct {
 	id        byte
@@ -173,10 +174,21 @@ type procState struct {
 	st        *Stack
 	err       error
 	committed bool
+	dir       string
+	cfg       Config
 }
 
 func runOp(p *procState) {
 	switch p.op {
+	case opOpenAdd:
+		st, err := NewStack(p.dir, p.cfg)
+		if err != nil {
+			p.err = err
+			return
+		}
+		st.disableAutoCompact = true
+		p.st = st
+		p.err = addTxn(st, p.id, true)
 	case opAdd:
 		p.err = addTxn(p.st, p.id, true)
 	case opAddAuto:
@@ -197,7 +209,7 @@ func runOp(p *procState) {
 	}
 }
 
-func isAdder(op int) bool { return op == opAdd || op == opAddAuto }
+func isAdder(op int) bool { return op == opAdd || op == opAddAuto || op == opOpenAdd }
 
 func sortedKeysOf(m map[string]byte) string {
 	var ks []string
@@ -231,11 +243,13 @@ func scenario(ops []int, nInit int, hash int, maxPre int, checks int) {
 	seedStack(dir, cfg, nInit)
 	var procs []*procState
 	for i, op := range ops {
-		p := &procState{id: byte(7 + i), op: op}
-		VerifAs(i + 1)
-		p.st = mustOpen(dir, cfg, "open")
-		if p.st == nil {
-			return
+		p := &procState{id: byte(7 + i), op: op, dir: dir, cfg: cfg}
+		if op != opOpenAdd {
+			VerifAs(i + 1)
+			p.st = mustOpen(dir, cfg, "open")
+			if p.st == nil {
+				return
+			}
 		}
 		procs = append(procs, p)
 	}
@@ -295,7 +309,7 @@ func finalChecks(dir string, cfg Config, nInit int, procs []*procState, checks i
 			continue
 		}
 		at, committed := first[p]
-		if p.op == opAdd {
+		if p.op == opAdd || p.op == opOpenAdd {
 			VerifAssert((p.err == nil) == committed, "add-result-matches-commit")
 		} else {
 			// Add followed by auto-compaction: the compaction's failure is reported too
@@ -334,6 +348,9 @@ var quickPairs = [][]int{
 	{opAdd, opClean},
 	{opCompactAll, opReload},
 	{opAdd, opClose},
+	{opAdd, opOpenAdd},
+	{opOpenAdd, opOpenAdd},
+	{opCompactAll, opOpenAdd},
 }
 
 func pickPair() []int {
@@ -344,10 +361,17 @@ func pickPair() []int {
 }
 
 // Harness_C04_pairs: two processes, one operation each: no lost, altered or phantom update; Add succeeds iff committed; only lock failures.
-// bounds: 2 processes (own handles, opened before either runs); operation pairs: Add/Add, CompactAll/Add, CompactAll/Add+auto-compaction, compactRange(0,1)/CompactAll, Add/Clean, CompactAll/reload, Add/Close (thorough: all 49 pairs of the 7 operations); initial stack of 3 tables; every schedule with <= 2 preemptions at visible filesystem steps (thorough 3); sha1 (thorough: sha256 too)
+// bounds: 2 processes (own handles, opened before either runs); operation pairs: Add/Add, CompactAll/Add, CompactAll/Add+auto-compaction, compactRange(0,1)/CompactAll, Add/Clean, CompactAll/reload, Add/Close, Add/open+Add, open+Add/open+Add, CompactAll/open+Add (open+Add: the handle is opened inside the process, so it may be fresh or stale) (thorough: all 64 pairs of the 8 operations); initial stack of 3 tables; every schedule with <= 2 preemptions at visible filesystem steps (thorough 3); sha1 (thorough: sha256 too)
 // covers: done
 func Harness_C04_pairs() {
 	scenario(pickPair(), 3, VerifChoose(1+VerifTier()), 2+VerifTier(), chkFinal|chkErrors)
+}
+
+// Harness_C04_triples: three adders, two of which open their handle late (a lock deleted by a non-owner lets two of them commit over each other).
+// bounds: 3 processes: Add, open+Add, open+Add on a stack of 1 table; every schedule with <= 3 preemptions
+// covers: done
+func Harness_C04_triples() {
+	scenario([]int{opAdd, opOpenAdd, opOpenAdd}, 1, 0, 3, chkFinal|chkErrors)
 }
 
 // Harness_C04_triples_thorough: three processes.
